@@ -13,7 +13,7 @@ NpmPool == <<
   NpmV("1.0.0", TRUE, <<1, 0, 0>>, <<>>), NpmV("v1.0.0", TRUE, <<1, 0, 0>>, <<>>),
   NpmV("1.0.0-alpha", TRUE, <<1, 0, 0>>, <<IdStr(1)>>), NpmV("1.5.0", TRUE, <<1, 5, 0>>, <<>>),
   NpmV("2.0.0-rc.1", TRUE, <<2, 0, 0>>, <<IdStr(3), IdNum(1)>>), NpmV("2.0.0", TRUE, <<2, 0, 0>>, <<>>),
-  NpmV("zzz", FALSE, <<0, 0, 0>>, <<>>), NpmV("beta", FALSE, <<0, 0, 0>>, <<>>) >>
+  NpmV("zzz", FALSE, <<0, 0, 0>>, <<>>), NpmV("beta", FALSE, <<0, 0, 0>>, <<>>), NpmV("1.0.0-beta", TRUE, <<1, 0, 0>>, <<IdStr(2)>>) >>
 PyV2(text, rel) == [text |-> text, pars |-> TRUE, v |-> [rel |-> rel]]
 PyPool == << PyV2("1.0", <<1, 0>>), PyV2("1.0.0", <<1, 0, 0>>), PyV2("1.5", <<1, 5>>), PyV2("2.0", <<2, 0>>),
              PyV2("0.9", <<0, 9>>), PyV2("1.0.1", <<1, 0, 1>>), PyV2("2", <<2>>) >>
@@ -47,6 +47,8 @@ NpmReqs == << NpmReq(<<<<Cmr("", [n |-> <<>>, pre |-> <<>>, xs |-> "*"])>>>>), N
               NpmReq(<<<<Cmr("<", Pn(<<2, 0, 0>>))>>>>), NpmReq(<<<<Cmr("", Pn(<<1, 0, 0>>))>>>>),
               NpmReq(<<<<Cmr(">=", Ppre(<<1, 0, 0>>, <<IdStr(1)>>))>>>>), NpmReq(<<<<Cmr(">=", Ppre(<<2, 0, 0>>, <<IdStr(3), IdNum(1)>>))>>>>),
               NpmReq(<<<<Cmr(">", Pn(<<2, 0, 0>>))>>>>),
+              NpmReq(<<<<Cmr(">=", Ppre(<<1, 0, 0>>, <<IdStr(1)>>)), Cmr("<", Pn(<<1, 0, 0>>))>>>>),
+              NpmReq(<<<<Cmr("", Ppre(<<1, 0, 0>>, <<IdStr(1)>>))>>, <<Cmr("", Ppre(<<2, 0, 0>>, <<IdStr(3), IdNum(1)>>))>>>>),
               Tag("latest"), Tag("beta"), Tag("zzz"), Tag("nope") >>
 PyC(op, rel) == [op |-> op, rel |-> rel, star |-> FALSE, pre |-> <<>>, post |-> -1, dev |-> -1]
 PyReq(r) == [text |-> PySpecText(r), range |-> TRUE, ast |-> r]
